@@ -21,7 +21,7 @@ confirm)
       if [ -s $wt/.suite.$$.log ]; then rc_suite=1; echo "suite output in $m:"; cat $wt/.suite.$$.log; fi
     done
   fi
-  cp "$demo" "$wt/$dest"
+  mkdir -p "$(dirname "$wt/$dest")"; cp "$demo" "$wt/$dest"
   (cd $wt/$mod && go test -mod=mod -vet=off -count=1 $pkg -run "$run" >/tmp/confirm.$$.with 2>&1); rc_with=$?
   git -C $wt apply -R "$patch"
   (cd $wt/$mod && go test -mod=mod -vet=off -count=1 $pkg -run "$run" >/tmp/confirm.$$.without 2>&1); rc_without=$?
